@@ -134,6 +134,14 @@ def run_driver(cmd, in_path, out_path, timeout=300):
         return "TIMEOUT"
 
 
+def perm_of(lines, inst):
+    """depot index -> location as printed by the harness run itself (HashMap order differs per process)"""
+    for l in lines[:3]:
+        if l.startswith("perm"):
+            return [int(x) for x in l.split()[1:]]
+    return None
+
+
 def read_lines(path):
     try:
         with open(path) as f:
@@ -332,6 +340,16 @@ def load_corpus(pid):
     return out
 
 
+def load_corpus_cases(pid):
+    d = os.path.join(VERIF, "corpus", pid)
+    out = []
+    if os.path.isdir(d):
+        for f in sorted(os.listdir(d)):
+            if f.endswith(".json"):
+                out.append(json.load(open(os.path.join(d, f))))
+    return out
+
+
 def known_match(pid, what, detail, kf):
     """A failing case is a known finding iff a committed entry for this property names the same
     `what` class and its `match` regex matches the detail."""
@@ -342,7 +360,7 @@ def known_match(pid, what, detail, kf):
 
 
 def conclude_diff(pid, tier, seed, t0, proof, results, check_impl, features, strip_model_prefixes=(),
-                  model_flags=None, what="", extra_cov=None, level="proof"):
+                  model_flags=None, what="", extra_cov=None, level="proof", check_pair=None):
     """Common verdict logic for model-vs-implementation line comparisons.
     results: list of dict(k, inst, hstatus, dstatus, impl, model)."""
     kf = load_known_findings()
@@ -374,7 +392,8 @@ def conclude_diff(pid, tier, seed, t0, proof, results, check_impl, features, str
         fd = first_diff(r["impl"], model)
         if fd:
             diffs.append((r, "line %d: impl=[%s] model=[%s]" % fd))
-        for (w, detail) in check_impl(r["inst"], r["impl"]):
+        found = check_pair(r["inst"], r["impl"], r["model"]) if check_pair else check_impl(r["inst"], r["impl"])
+        for (w, detail) in found:
             e = known_match(pid, w, detail, kf)
             if e:
                 known.append((e, r, detail))
